@@ -381,7 +381,25 @@ func (it *orderedMapIter) next() tuple {
 
 func (fr *frame) rangeMap(m map[value]value) iter {
 	keys := sortedKeys(m)
-	if fr.i.mapOrders && len(keys) >= 2 && fr.i.eng != nil {
+	if fr.i.mapOrders == 1 && len(keys) >= 2 && fr.i.eng != nil {
+		// one symbolic direction for every map range of this activation
+		if !fr.i.orderDecided {
+			e := fr.i.eng
+			fr.i.orderSeq++
+			name := fmt.Sprintf("maporder!run%d", fr.i.orderSeq)
+			s := e.newSym(name, SBV8)
+			e.chooses[name] = true
+			e.assume(mkBool(BVCmp("bvult", s, BVConst(2, 8))))
+			fr.i.orderRev = e.decide(Eq(s, BVConst(1, 8)))
+			fr.i.orderDecided = true
+		}
+		if fr.i.orderRev {
+			for a, b := 0, len(keys)-1; a < b; a, b = a+1, b-1 {
+				keys[a], keys[b] = keys[b], keys[a]
+			}
+		}
+	}
+	if fr.i.mapOrders == 2 && len(keys) >= 2 && fr.i.eng != nil {
 		if len(keys) > 4 {
 			unsup("map order exploration: %d keys", len(keys))
 		}
